@@ -65,13 +65,13 @@ fn gen_lib(src: &mut Src) -> MLib {
         let targets: Vec<usize> = (0..ci).collect();
         let ni = if has_layout && !targets.is_empty() { src.usize_in(0, 4) } else { 0 };
         let insts = (0..ni)
-            .map(|k| MInst { name: format!("{}{}", src.pick(&["i", "Inst<", "x.y_"]), k), target: if src.bool() { ci - 1 } else { targets[src.index(targets.len())] }, loc: (src.signed(1000), src.signed(1000)), rh: src.bool(), rv: src.bool() })
+            .map(|k| MInst { name: format!("{}{}", src.pick(&["i", "Inst<", "x.y_", "экземпляр_Ωμέγα_中文字符中文字符中文字符中文字符中文字符中文字符_"]), k), target: if src.bool() { ci - 1 } else { targets[src.index(targets.len())] }, loc: (src.signed(1000), src.signed(1000)), rh: src.bool(), rv: src.bool() })
             .collect();
         let na = if has_layout { src.usize_in(0, 3) } else { 0 };
         let ncut = if has_layout { src.usize_in(0, 3) } else { 0 };
         cells.push(MCell {
             // names may begin or end with blanks: they are data
-            name: { let pat = *src.pick(&["tc{}", "tc{}", "tc{}", "tc{} ", " tc{}", "tc{}\t"]); pat.replace("{}", &ci.to_string()) },
+            name: { let pat = *src.pick(&["tc{}", "tc{}", "tc{}", "tc{} ", " tc{}", "tc{}\t", "tc{}_αβγδεζηθικλμνξοπρστυφχψω_中文字符中文字符中文字符中文字符中文字符"]); pat.replace("{}", &ci.to_string()) },
             has_layout,
             // a cell without a layout usually has an abstract; one time in four it has no view at all (a black box)
             has_abs: if has_layout { src.prob(1, 4) } else { !src.prob(1, 4) },
@@ -150,7 +150,7 @@ fn read_back(lib: &tet::library::Library) -> Result<Vec<MCell>, String> {
                 let i = ip.read().map_err(|_| "lock")?;
                 let loc = i.loc.abs().map_err(|e| format!("{:?}", e))?;
                 let tname = i.cell.read().map_err(|_| "lock")?.name.clone();
-                let target: usize = tname.trim().strip_prefix("tc").and_then(|s| s.parse().ok()).ok_or("target name")?;
+                let target: usize = tname.trim().strip_prefix("tc").map(|s| s.chars().take_while(|c| c.is_ascii_digit()).collect::<String>()).and_then(|s| s.parse().ok()).ok_or("target name")?;
                 mc.insts.push(MInst { name: i.inst_name.clone(), target, loc: (loc.x.num as i64, loc.y.num as i64), rh: i.reflect_horiz, rv: i.reflect_vert });
             }
             for a in &l.assignments {
